@@ -28,10 +28,18 @@
    "Exporting and re-parsing preserves a domain/problem" itself is C08/C09's theorem (Model/DomainExporter.v and
    Model/ProblemExporter.v belong to those properties and did not exist when this file was written), so the
    round trip enters here as a quantified function with its C08/C09 contract as hypothesis; for C17 the real
-   exporters are tied by correspondence only: on every case of the run the combination is exported by the
-   implementation, re-parsed, and its sections compared. *)
+   exporters are tied by correspondence: on every case of the run the combination is exported by the
+   implementation, re-parsed, and its sections compared.
+     - Structured layer (added when Model/DomainExporter.v had appeared): Model/CombineDomains.v combines domains
+       parsed by the MODEL's parser (Model/Domain.v).  C17_structured_refines: its rows are the dump-level
+       combination of the files' rows, hence C17_structured_union / C17_structured_order; C17_roundtrip_exporter:
+       by C08's theorem, whenever the combination satisfies C08's wf_mdomain (evaluated on every structured case
+       of the run, Corr/C17s.v) the exporter model's text is read back with the same vocabulary, name and
+       requirements. *)
 From Coq Require Import List String Permutation.
-From Verif Require Import Base.Result Base.Str Model.Combine Spec.Combine
+From Verif Require Import Base.Result Base.Str Base.PyDict Model.Domain Model.DomainExporter Model.CombineDomains
+  Proofs.C08_Defs Corr.Core Proofs.C17_Structured.
+From Verif Require Import Model.Combine Spec.Combine
   Proofs.C17_Dict Proofs.C17_Domains Proofs.C17_Problems Proofs.C17_Store Proofs.C17_Checkers
   Proofs.C17_WellFormed.
 Import ListNotations.
@@ -171,6 +179,41 @@ Theorem C17_example_wellformed :
   ex_refsT "(at ?a - agent ?l - loc)" = ["agent"; "loc"].
 Proof. exact (conj (proj1 ex_wf_domains) (conj (proj2 ex_wf_domains) (conj ex_wf_problems (proj1 ex_refs_nontrivial)))). Qed.
 
+(* ---------------------------------------------------------------- the structured layer: parsed domains, C08's exporter *)
+Theorem C17_structured_refines : forall files : list mdomain,
+  same_sections (rows_of (combine_mdomains files)) (combine_domains [] (map rows_of files)).
+Proof. exact C17_structured_refines_lemma. Qed.
+
+Theorem C17_structured_union : forall files : list mdomain,
+  sections_agree [] (map rows_of files) ->
+  domain_is_union [] (map rows_of files) (rows_of (combine_mdomains files)).
+Proof. exact C17_structured_union_lemma. Qed.
+
+Theorem C17_structured_order : forall files files' : list mdomain,
+  sections_agree [] (map rows_of files) -> Permutation files files' ->
+  domain_equiv (rows_of (combine_mdomains files)) (rows_of (combine_mdomains files')).
+Proof. exact C17_structured_order_lemma. Qed.
+
+Theorem C17_roundtrip_exporter : forall (num : numparser) (dpre deff : nat) (dummy : bool) (files : list mdomain),
+  wf_mdomain num dpre deff (locate_mdomains dummy files) = true ->
+  exists m', parse_domain num (export_domain dpre deff (locate_mdomains dummy files)) = Ok m' /\
+             model_vocab m' = model_vocab (locate_mdomains dummy files) /\
+             Domain.d_name m' = Domain.d_name (locate_mdomains dummy files) /\
+             Domain.d_reqs m' = Domain.d_reqs (locate_mdomains dummy files).
+Proof. exact C17_roundtrip_exporter_lemma. Qed.
+
+(* hypotheses satisfiable: two agent files (overlapping, :private block, differing requirements) parsed by the model;
+   their rows agree, the combination has 4 types and 3 predicates and satisfies wf_mdomain with and without dummies *)
+Theorem C17_example_structured :
+  exists fa fb,
+    exs_files = Ok [fa; fb] /\
+    sections_agree [] (map rows_of [fa; fb]) /\
+    List.length (Domain.d_types (combine_mdomains [fa; fb])) = 4 /\
+    dkeys (Domain.d_preds (combine_mdomains [fa; fb])) = ["at"; "free"; "sky"] /\
+    wf_mdomain exs_num 2 4 (locate_mdomains true [fa; fb]) = true /\
+    wf_mdomain exs_num 2 4 (locate_mdomains false [fb; fa]) = true.
+Proof. exact exs_structured. Qed.
+
 (* ---------------------------------------------------------------- the four parts of the property under their short names *)
 Theorem C17_union :
   (forall (defaults : alist) (files : list domainv),
@@ -238,6 +281,11 @@ Print Assumptions C17_wellformed_problems.
 Print Assumptions C17_roundtrip_domains.
 Print Assumptions C17_roundtrip_problems.
 Print Assumptions C17_example_wellformed.
+Print Assumptions C17_structured_refines.
+Print Assumptions C17_structured_union.
+Print Assumptions C17_structured_order.
+Print Assumptions C17_roundtrip_exporter.
+Print Assumptions C17_example_structured.
 Print Assumptions C17_union_checker_sound.
 Print Assumptions C17_weak_union_checker_sound.
 Print Assumptions C17_set_union_checker_sound.
